@@ -165,4 +165,236 @@ theorem C10_gen_calc_actionPenalty (s : SimState) (it : Item) (ap dn : Val) (r l
   by_cases h : it.action = "do-nothing" <;> simp [Gen.Reward.calc_ActionPenalty, calcActionPenalty, h]
 
 
+/-! ## 2. Non-interference: what a component's value can depend on -/
+
+/-- two history items agree on the fields a component reads -/
+def Reads.agree (r : Reads) (it it' : Item) : Prop :=
+  (r.action = true → it.action = it'.action) ∧ (r.request = true → it.request = it'.request) ∧
+  (r.status = true → it.status = it'.status)
+
+/-- `DatabaseFileIntegrity`: the value (or exception) is a function of the leaf `access state location_in_state` alone —
+no other part of the state, nothing of the history item, no memory. -/
+theorem C10_file_reads_only_its_leaf (s s' : SimState) (n fo fi : Name)
+    (h : PyVal.access s (fileLoc n fo fi) = PyVal.access s' (fileLoc n fo fi)) :
+    calcFileE s n fo fi = calcFileE s' n fo fi := by
+  unfold calcFileE; rw [h]
+
+/-- `WebServer404Penalty`: a function of its leaf, its sticky flag and its own memory. -/
+theorem C10_web404_reads_only_its_leaf (s s' : SimState) (n sv : Name) (st : Bool) (m : Val)
+    (h : PyVal.access s (web404Loc n sv) = PyVal.access s' (web404Loc n sv)) :
+    calcWeb404E s n sv st m = calcWeb404E s' n sv st m := by
+  unfold calcWeb404E; rw [h]
+
+/-- `WebpageUnavailablePenalty`: a function of its leaf, of `request` and `response.status` of the agent's OWN latest item,
+its sticky flag and its own memory. -/
+theorem C10_webpage_reads_only_leaf_request_status (s s' : SimState) (it it' : Item) (n : Name) (st : Bool) (m : Val)
+    (h : PyVal.access s (webpageLoc n) = PyVal.access s' (webpageLoc n))
+    (hr : it.request = it'.request) (hs : it.status = it'.status) :
+    calcWebpageE s it n st m = calcWebpageE s' it' n st m := by
+  unfold calcWebpageE webpageFreshE Item.requestIs Item.ok; rw [h, hr, hs]
+
+/-- `GreenAdminDatabaseUnreachablePenalty`: a function of `request` and `response.status` of the agent's own latest item, its
+sticky flag and its own memory — no state at all. -/
+theorem C10_greenDb_reads_only_request_status (it it' : Item) (n : Name) (st : Bool) (m : Val)
+    (hr : it.request = it'.request) (hs : it.status = it'.status) :
+    calcGreenDb it n st m = calcGreenDb it' n st m := by
+  unfold calcGreenDb Item.requestIs Item.ok; rw [hr, hs]
+
+/-- `ActionPenalty`: a function of the agent's own latest `action` (and the two configured penalties). -/
+theorem C10_actionPenalty_reads_only_action (it it' : Item) (ap dn : Val) (ha : it.action = it'.action) :
+    calcActionPenalty it ap dn = calcActionPenalty it' ap dn := by
+  unfold calcActionPenalty; rw [ha]
+
+/-- **Non-interference, every component.** `comp.calculate(state, last_action_response)` — value, new memory, or the exception
+it raises — is the same for two states that agree on the leaf the component names and two history items that agree on the
+fields it reads (and, for `SharedReward`, two callbacks that agree on the agent it names). Everything else — the rest of
+the state dictionary, `timestep`, `parameters`, `response.data`, `reward_info`, `observation`, the fields outside the
+read-set, other agents' rewards — cannot influence it. -/
+theorem C10_component_noninterference (s s' : SimState) (it it' : Item) (cur cur' : Name → Val) (c : Comp)
+    (hleaf : ∀ p, c.loc = some p → PyVal.access s p = PyVal.access s' p)
+    (hitem : c.reads.agree it it')
+    (hcur : ∀ a, c = .shared a → cur a = cur' a) :
+    calcCompE s it cur c = calcCompE s' it' cur' c := by
+  obtain ⟨ha, hr, hs⟩ := hitem
+  cases c with
+  | dummy => rfl
+  | fileIntegrity n fo fi =>
+    simp only [calcCompE, C10_file_reads_only_its_leaf s s' n fo fi (hleaf _ rfl)]
+  | web404 n sv st m =>
+    simp only [calcCompE, C10_web404_reads_only_its_leaf s s' n sv st m (hleaf _ rfl)]
+  | webpage n st m =>
+    simp only [calcCompE, C10_webpage_reads_only_leaf_request_status s s' it it' n st m (hleaf _ rfl) (hr rfl) (hs rfl)]
+  | greenDb n st m =>
+    simp only [calcCompE, C10_greenDb_reads_only_request_status it it' n st m (hr rfl) (hs rfl)]
+  | shared a => simp only [calcCompE, hcur a rfl]
+  | actionPenalty ap dn =>
+    simp only [calcCompE, C10_actionPenalty_reads_only_action it it' ap dn (ha rfl)]
+
+/-- non-vacuity: two different states and two different items that agree on what a `webpage` component reads -/
+example : (Comp.webpage "pc1" false 0).reads.agree
+    { action := "a", request := .list [.str "x"], status := "success", timestep := 3 }
+    { action := "b", request := .list [.str "x"], status := "success", timestep := 9, data := .dict [(.str "k", .int 1)] } :=
+  ⟨fun h => (by cases h), fun _ => rfl, fun _ => rfl⟩
+
+/-- the same for the total evaluation function the algebraic development uses -/
+theorem calcComp_noninterference (s s' : SimState) (it it' : Item) (cur cur' : Name → Val) (c : Comp)
+    (hleaf : ∀ p, c.loc = some p → PyVal.access s p = PyVal.access s' p)
+    (hitem : c.reads.agree it it')
+    (hcur : ∀ a, c = .shared a → cur a = cur' a) :
+    calcComp s it cur c = calcComp s' it' cur' c := by
+  have h := C10_component_noninterference s s' it it' cur cur' c hleaf hitem hcur
+  cases c with
+  | dummy => rfl
+  | fileIntegrity n fo fi =>
+    have : calcFileE s n fo fi = calcFileE s' n fo fi := C10_file_reads_only_its_leaf s s' n fo fi (hleaf _ rfl)
+    simp only [calcComp, calcFile, this]
+  | web404 n sv st m =>
+    have : calcWeb404E s n sv st m = calcWeb404E s' n sv st m := C10_web404_reads_only_its_leaf s s' n sv st m (hleaf _ rfl)
+    simp only [calcComp, calcWeb404, this]
+  | webpage n st m =>
+    have : calcWebpageE s it n st m = calcWebpageE s' it' n st m :=
+      C10_webpage_reads_only_leaf_request_status s s' it it' n st m (hleaf _ rfl) (hitem.2.1 rfl) (hitem.2.2 rfl)
+    simp only [calcComp, calcWebpage, this]
+  | greenDb n st m =>
+    simp only [calcComp, C10_greenDb_reads_only_request_status it it' n st m (hitem.2.1 rfl) (hitem.2.2 rfl)]
+  | shared a => simp only [calcComp, hcur a rfl]
+  | actionPenalty ap dn =>
+    simp only [calcComp, C10_actionPenalty_reads_only_action it it' ap dn (hitem.1 rfl)]
+
+theorem updateComps_noninterference (s s' : SimState) (it it' : Item) (cur cur' : Name → Val) (comps : List (Comp × Val))
+    (hleaf : ∀ cw ∈ comps, ∀ p, cw.1.loc = some p → PyVal.access s p = PyVal.access s' p)
+    (hitem : ∀ cw ∈ comps, cw.1.reads.agree it it')
+    (hcur : ∀ v ∈ sharedNames comps, cur v = cur' v) :
+    ∀ acc, updateComps s it cur acc comps = updateComps s' it' cur' acc comps := by
+  induction comps with
+  | nil => intro acc; rfl
+  | cons cw rest ih =>
+    obtain ⟨c, w⟩ := cw
+    intro acc
+    have hc : calcComp s it cur c = calcComp s' it' cur' c := by
+      apply calcComp_noninterference s s' it it' cur cur' c (hleaf (c, w) (by simp)) (hitem (c, w) (by simp))
+      intro a hca; subst hca; exact hcur a (by simp [sharedNames])
+    have hrest := ih (fun cw hcw => hleaf cw (List.mem_cons_of_mem _ hcw)) (fun cw hcw => hitem cw (List.mem_cons_of_mem _ hcw))
+      (fun v hv => hcur v (sharedNames_cons_mem hv))
+    simp only [updateComps, hc, hrest]
+
+/-- what is compared between two runs of a step: components (memories included), step reward, total -/
+def Agent.rewardView (a : Agent) : List (Comp × Val) × Val × Val := (a.comps, a.current, a.total)
+
+/-- **Non-interference, the whole step.** Take one well-formed game and run the step twice: with post-step states that agree
+on every leaf some configured component names, and with history items that agree, agent by agent, on the fields that
+agent's own components read. Then every agent ends with the same step reward, the same total and the same component
+memories — however much the rest of the state dictionary and the other fields of the items (or the items of agents whose
+components read nothing) differ. In particular an agent's reward depends on its OWN latest action and response only (and,
+through shared components, on the agents it shares from, by the same rule). -/
+theorem C10_step_noninterference (g : Game) (wf : WF g) (items items' : Name → Item) (s s' : SimState)
+    (hleaf : ∀ n a, g.agents.lookup n = some a → ∀ cw ∈ a.comps, ∀ p, cw.1.loc = some p → PyVal.access s p = PyVal.access s' p)
+    (hitem : ∀ n a, g.agents.lookup n = some a → ∀ cw ∈ a.comps, cw.1.reads.agree (items n) (items' n)) :
+    ∃ g1 g2, gameStep g items s = .ok g1 ∧ gameStep g items' s' = .ok g2 ∧
+      ∀ n, (g1.agents.lookup n).map Agent.rewardView = (g2.agents.lookup n).map Agent.rewardView := by
+  obtain ⟨g1, h1, _, _, _, hk1, hf1⟩ := gameStep_spec g wf items s
+  obtain ⟨g2, h2, _, _, _, hk2, hf2⟩ := gameStep_spec g wf items' s'
+  refine ⟨g1, g2, h1, h2, ?_⟩
+  have key : ∀ (k : Nat) (n : Name), n ∈ g.order → g.order.idxOf n < k →
+      (g1.agents.lookup n).map Agent.rewardView = (g2.agents.lookup n).map Agent.rewardView := by
+    intro k
+    induction k with
+    | zero => intro n _ h; omega
+    | succ k ih =>
+      intro n hn hk
+      obtain ⟨a, ha⟩ := mem_keys_lookup ((wf.orderMem n).mp hn)
+      rw [hf1 n a ha, hf2 n a ha]
+      simp only [Option.map_some, updAgent_pushItem, Agent.rewardView]
+      have hcur : ∀ v ∈ sharedNames a.comps, curOf g1.agents v = curOf g2.agents v := by
+        intro v hv
+        obtain ⟨hvo, hlt⟩ := shared_mem_order wf ha hv
+        have hv' := ih v hvo (by omega)
+        unfold curOf
+        cases hl1 : g1.agents.lookup v with
+        | none =>
+          rw [hl1] at hv'
+          cases hl2 : g2.agents.lookup v with
+          | none => rfl
+          | some b => rw [hl2] at hv'; cases hv'
+        | some b1 =>
+          rw [hl1] at hv'
+          cases hl2 : g2.agents.lookup v with
+          | none => rw [hl2] at hv'; cases hv'
+          | some b2 =>
+            rw [hl2] at hv'
+            simp only [Option.map_some, Agent.rewardView, Option.some.injEq, Prod.mk.injEq] at hv'
+            exact hv'.2.1
+      have hu := updateComps_noninterference s s' (items n) (items' n) (curOf g1.agents) (curOf g2.agents) a.comps
+        (hleaf n a ha) (hitem n a ha) hcur 0
+      rw [hu]
+  intro n
+  by_cases hn : n ∈ agentKeys g.agents
+  · exact key (g.order.idxOf n + 1) n ((wf.orderMem n).mpr hn) (by omega)
+  · rw [(lookup_none_iff _ n).mpr (by rw [hk1]; exact hn), (lookup_none_iff _ n).mpr (by rw [hk2]; exact hn)]
+
+/-- An agent without shared-reward components: its step reward is a function of the post-step state and of its own latest
+history item alone — whatever the other agents did. -/
+theorem C10_own_item_only (g : Game) (wf : WF g) (items : Name → Item) (s : SimState) (g' : Game)
+    (hok : gameStep g items s = .ok g') (n : Name) (a : Agent) (ha : g.agents.lookup n = some a)
+    (hns : sharedNames a.comps = []) :
+    ∃ a', g'.agents.lookup n = some a' ∧ a'.current = (updateComps s (items n) (fun _ => 0) 0 a.comps).1 := by
+  obtain ⟨g'', hok', _, _, _, _, hf⟩ := gameStep_spec g wf items s
+  rw [hok] at hok'; cases hok'
+  refine ⟨_, hf n a ha, ?_⟩
+  rw [updAgent_pushItem]
+  simp only
+  rw [updateComps_congr s (items n) (curOf g'.agents) (fun _ => 0) a.comps 0 (by rw [hns]; intro v hv; cases hv)]
+
+/-! ## 3. The step with exceptions -/
+
+/-- **The step, exceptions included** (what the driver runs). On a well-formed game: if every configured component accepts the
+post-step state and its agent's new item (`compOK`: its leaf has a shape `calculate` copes with), the step succeeds and is
+the step of `C10_step`; and whenever the step succeeds — for whatever reason — its result is the one `C10_step` describes. -/
+theorem C10_stepE (g : Game) (wf : WF g) (items : Name → Item) (s : SimState) :
+    ((∀ n a, g.agents.lookup n = some a → ∀ cw ∈ a.comps, compOK s (items n) cw.1 = true) →
+      ∃ g', gameStepE g items s = .ok g' ∧ gameStep g items s = .ok g') ∧
+    (∀ g', gameStepE g items s = .ok g' → gameStep g items s = .ok g') := by
+  constructor
+  · intro hok
+    obtain ⟨g', hg', _⟩ := gameStep_spec g wf items s
+    exact ⟨g', by rw [gameStepE_eq g items s hok]; exact hg', hg'⟩
+  · intro g' h; exact gameStepE_sound h
+
+/-- a component raises exactly when its evaluation function does: `compOK` is the decidable, memory-independent form of
+"`calculate` returns" -/
+theorem C10_compOK_iff (s : SimState) (it : Item) (cur : Name → Val) (c : Comp) :
+    compOK s it c = true ↔ ∃ r, calcCompE s it cur c = .ok r := by
+  constructor
+  · intro h; exact ⟨_, calcCompE_of_ok cur h⟩
+  · intro ⟨r, h⟩
+    cases c with
+    | fileIntegrity n fo fi =>
+      simp only [compOK]
+      cases hc : calcFileE s n fo fi with
+      | error e => simp [calcCompE, hc, Except.map] at h
+      | ok v => rfl
+    | web404 n sv st m =>
+      simp only [compOK]
+      rw [calcWeb404E_isOk s n sv true st 0 m]
+      cases hc : calcWeb404E s n sv st m with
+      | error e => simp [calcCompE, hc, Except.map] at h
+      | ok v => rfl
+    | webpage n st m =>
+      simp only [compOK]
+      rw [calcWebpageE_isOk s it n true st 0 m]
+      cases hc : calcWebpageE s it n st m with
+      | error e => simp [calcCompE, hc, Except.map] at h
+      | ok v => rfl
+    | _ => rfl
+
+/-- the projection of the state on the components' own key paths (what the rig sends for a large real `describe_state()`)
+is indistinguishable from the whole state for every component whose path is in the set -/
+theorem C10_projection_invisible (s : SimState) (paths : List (List String)) (it : Item) (cur : Name → Val) (c : Comp)
+    (h : ∀ p, c.loc = some p → p ∈ paths) :
+    calcCompE (PyVal.restrict s paths) it cur c = calcCompE s it cur c := by
+  apply C10_component_noninterference
+  · intro p hp; exact PyVal.access_restrict p s paths (h p hp)
+  · exact ⟨fun _ => rfl, fun _ => rfl, fun _ => rfl⟩
+  · intro a _; rfl
+
 end Primaite.Reward
